@@ -27,6 +27,11 @@ type Case struct {
 	Groups   []string `json:"groups_goquoted"`
 	Contexts []string `json:"contexts"`        // names of the contexts it is evaluated on ("case" = ArrayCtx(groups))
 	Where    string   `json:"where,omitempty"` // informational: phase, optimisation, context of the first failure
+	// family ff only: the definitions file, the call sites in order, where they are (see funcsfile.go)
+	FuncsFile string   `json:"funcs_file_goquoted,omitempty"`
+	FuncsID   string   `json:"funcs_file_id,omitempty"`
+	Templates []string `json:"templates_goquoted,omitempty"`
+	Layout    string   `json:"layout,omitempty"`
 }
 
 func (x *executor) caseOf(p *exprgen.Prog, where string) Case {
@@ -36,6 +41,12 @@ func (x *executor) caseOf(p *exprgen.Prog, where string) Case {
 	}
 	for _, e := range x.plan(p) {
 		c.Contexts = append(c.Contexts, e.Name)
+	}
+	if sp := ffCases[p]; sp != nil {
+		c.FuncsFile, c.FuncsID, c.Layout = strconv.Quote(sp.Text), sp.File, sp.Layout
+		for _, t := range sp.Tmpls {
+			c.Templates = append(c.Templates, strconv.Quote(t))
+		}
 	}
 	return c
 }
@@ -54,6 +65,21 @@ func (c Case) prog() (*exprgen.Prog, error) {
 		p.Groups = append(p.Groups, s)
 	}
 	replayContexts[p] = c.Contexts
+	if c.Family == "ff" {
+		sp := &ffSpec{File: c.FuncsID, Layout: c.Layout}
+		if sp.Text, err = strconv.Unquote(c.FuncsFile); err != nil {
+			return nil, err
+		}
+		for _, q := range c.Templates {
+			t, err := strconv.Unquote(q)
+			if err != nil {
+				return nil, err
+			}
+			sp.Tmpls = append(sp.Tmpls, t)
+		}
+		p.Arity = len(sp.Tmpls)
+		ffCases[p] = sp
+	}
 	return p, nil
 }
 
@@ -101,6 +127,7 @@ type executor struct {
 	noPlant  bool
 	planFor  *exprgen.Prog
 	planned  []exprgen.PlanEntry
+	ffPaths  map[string]string // definitions file text -> real file (family ff)
 }
 
 func newExecutor() *executor {
@@ -183,6 +210,9 @@ func (x *executor) hazard(p *exprgen.Prog) bool {
 // string ... and never panics". Failing to return is detected by the monitor
 // of the sandbox process, not here.
 func (x *executor) run(p *exprgen.Prog, report func(finding), tick func()) (nontrivial bool, outcome uint64) {
+	if sp := ffCases[p]; sp != nil {
+		return x.runFF(p, sp, report, tick)
+	}
 	h := fnv.New64a()
 	h.Write([]byte(p.Family + "|" + p.Fn + "|" + strconv.Itoa(p.Arity)))
 	ctxs := x.plan(p)
